@@ -223,13 +223,20 @@ def run(ctx):
     for n in fg.nodes:
         if n.kind == "stmt" and "_state_set(ConnectionState.ACTIVE)" in unparse(n.ast):
             fs = set()
+            from sa.guards import resolved as _resolved
             for t, lab in fg.guards(n.id, exc=False):
-                fs |= facts(t, lab == "true")
+                fs |= facts(t, lab == "true") | facts(_resolved(fin, t), lab == "true")
             acc = None
             for x in walk_no_nested(fin):
                 if isinstance(x, ast.Assign) and isinstance(x.value, ast.Call) and unparse(x.value.func).endswith("set_next_num_in") and isinstance(x.targets[0], ast.Name):
                     acc = x.targets[0].id
-            ok = acc is not None and any(tv and a == f"{acc} >= self._max_seq_num_resend" for a, tv in fs) and any(tv and "RESENDREQ_AWAITING" in a and "==" in a for a, tv in fs)
+            wm = any(tv and a == f"{acc} >= self._max_seq_num_resend" for a, tv in fs)
+            # the same test on the counter: set_next_num_in has just stored <accepted number> + 1 (its result is > 0 here), so
+            # `next_num_in > watermark` is `accepted >= watermark`
+            accepted = any((a, tv) in ((f"{acc} > 0", True), (f"{acc} <= 0", False), (f"{acc} >= 1", True), (f"{acc} < 1", False)) for a, tv in fs)
+            wm = wm or (accepted and any(tv and a in ("self._session.next_num_in > self._max_seq_num_resend", "self._max_seq_num_resend < self._session.next_num_in")
+                                         for a, tv in fs))
+            ok = acc is not None and wm and any(tv and "RESENDREQ_AWAITING" in a and "==" in a for a, tv in fs)
             ctx.instance(R3, "_finalize_message[ACTIVE only at the watermark]", ok,
                          "_finalize_message returns to ACTIVE without comparing the number it has just accepted with the requested watermark (>=) in RESENDREQ_AWAITING: the gap is declared closed one message early / late", loc(n.ast))
 
